@@ -1,1 +1,1594 @@
-fn main() {}
+//! C10 — glyph variation deltas survive encoding, IUP optimisation and application.
+//!
+//! Bounded exhaustive exploration of `write_fonts::tables::gvar::iup::iup_delta_optimize`, the gvar
+//! builder (`GlyphDeltas` / `GlyphVariations` / `Gvar::new` / `dump_table`), the read-fonts gvar reader
+//! and skrifa's application of deltas. See DESIGN.md §3 C10.
+//!
+//!  (a) optimiser: every closed contour of n points (+4 phantoms), per point (x, dx) from
+//!      {0,1,2,10}×{-2..2} with y / dy rotated copies (family a1, n <= 5 quick, 6 thorough), with
+//!      independent dx, dy (a2, n <= 3 / 4) and with independent x, y, dx, dy (a3, n <= 2 / 3);
+//!      tolerances {0, 0.5, 1, 2.5}; two-contour glyphs from all pairs of the a1 n=2 (and n=2 × n=3) sets.
+//!      Oracle: spec-text IUP inference in exact rationals over the retained deltas.
+//!  (b) encoding: (b1) the optimiser's own output for every a1 case with n <= 3 under 4 tents (n = 4 under
+//!      one), (b2) structured run families (point counts around 63/64/65, 127..130, 255..257, 520; 7 delta
+//!      patterns; 11 required/optional masks incl. point-number gaps 255/256/257; 4 tents incl. an
+//!      intermediate region; axis counts 1, 2; one or two glyphs sharing tuples and point sets; one or two
+//!      regions per glyph), (b3) data sizes swept byte by byte across the short/long offset switch.
+//!      Oracle: read-back tuples equal the input regions; explicit deltas + exact inference reproduce
+//!      required deltas exactly and optional ones within the declared tolerance.
+//!  (c) application: synthesised variable fonts (1 and 2 axes, 1..3 regions, dense and sparse tuples)
+//!      drawn unscaled through `OutlineGlyph::draw` at every boundary location; oracle: default +
+//!      Σ exact scalar · exact (inferred) delta, rounded half up, with an explicit fixed-point error bound.
+
+use font_types::{F2Dot14, GlyphId, Tag};
+use kurbo::{Point as KPoint, Vec2};
+use rayon::prelude::*;
+use read_fonts::tables::gvar as rgvar;
+use read_fonts::{FontData, FontRead, FontRef};
+use serde_json::{json, Value};
+use skrifa::instance::{LocationRef, Size};
+use skrifa::outline::{DrawSettings, OutlinePen};
+use skrifa::MetadataProvider;
+use std::collections::HashSet;
+use vcore::*;
+use write_fonts::tables::glyf::{Bbox, Contour, GlyfLocaBuilder, SimpleGlyph};
+use write_fonts::tables::gvar::iup::iup_delta_optimize;
+use write_fonts::tables::gvar::{GlyphDelta, GlyphDeltas, GlyphVariations, Gvar, Tent};
+use write_fonts::tables::head::Head;
+use write_fonts::tables::hhea::Hhea;
+use write_fonts::tables::hmtx::{Hmtx, LongMetric};
+use write_fonts::tables::maxp::Maxp;
+use write_fonts::{dump_table, FontBuilder};
+
+fn main() {
+    main_for("C10", body)
+}
+
+// ---------------------------------------------------------------------------
+// exact rationals (small; i128 with gcd reduction)
+// ---------------------------------------------------------------------------
+
+#[derive(Clone, Copy, Debug, PartialEq)]
+struct R {
+    n: i128,
+    d: i128, // > 0
+}
+fn gcd(a: i128, b: i128) -> i128 {
+    let (mut a, mut b) = (a.abs(), b.abs());
+    while b != 0 {
+        (a, b) = (b, a % b);
+    }
+    a.max(1)
+}
+impl R {
+    fn new(n: i128, d: i128) -> R {
+        assert!(d != 0);
+        let (n, d) = if d < 0 { (-n, -d) } else { (n, d) };
+        let g = gcd(n, d);
+        R { n: n / g, d: d / g }
+    }
+    fn int(n: i128) -> R {
+        R { n, d: 1 }
+    }
+    fn add(self, o: R) -> R {
+        R::new(self.n * o.d + o.n * self.d, self.d * o.d)
+    }
+    fn mul(self, o: R) -> R {
+        R::new(self.n * o.n, self.d * o.d)
+    }
+    fn sub(self, o: R) -> R {
+        self.add(R { n: -o.n, d: o.d })
+    }
+    fn to_f64(self) -> f64 {
+        self.n as f64 / self.d as f64
+    }
+}
+
+// ---------------------------------------------------------------------------
+// spec-text IUP inference, exact
+// ---------------------------------------------------------------------------
+
+/// "Inferred deltas for un-referenced point numbers" (OpenType gvar), per axis, exact.
+/// `coords`: every point incl. the 4 phantoms; `ends`: inclusive end index of each real contour;
+/// `explicit[i]`: the delta carried by the table for point i, if any.
+/// Points outside any contour (phantoms) and contours without a referenced point infer zero.
+fn infer(coords: &[(i64, i64)], ends: &[usize], explicit: &[Option<(i64, i64)>]) -> Vec<(R, R)> {
+    let n = coords.len();
+    let mut out: Vec<(R, R)> = (0..n)
+        .map(|i| match explicit[i] {
+            Some((x, y)) => (R::int(x as i128), R::int(y as i128)),
+            None => (R::int(0), R::int(0)),
+        })
+        .collect();
+    let mut start = 0usize;
+    for &end in ends {
+        let idx: Vec<usize> = (start..=end).collect();
+        start = end + 1;
+        let refd: Vec<usize> = idx.iter().copied().filter(|i| explicit[*i].is_some()).collect();
+        if refd.is_empty() {
+            continue;
+        }
+        for &t in &idx {
+            if explicit[t].is_some() {
+                continue;
+            }
+            // nearest referenced point before / after in point-number order, wrapping in the contour
+            let prec = refd.iter().rev().copied().find(|r| *r < t).unwrap_or(*refd.last().unwrap());
+            let foll = refd.iter().copied().find(|r| *r > t).unwrap_or(refd[0]);
+            let one = |c: i64, pc: i64, fc: i64, pd: i64, fd: i64| -> R {
+                if pc == fc {
+                    if pd == fd {
+                        R::int(pd as i128)
+                    } else {
+                        R::int(0)
+                    }
+                } else {
+                    let (c1, d1, c2, d2) = if pc < fc { (pc, pd, fc, fd) } else { (fc, fd, pc, pd) };
+                    if c <= c1 {
+                        R::int(d1 as i128)
+                    } else if c >= c2 {
+                        R::int(d2 as i128)
+                    } else {
+                        // d1 + (c - c1) (d2 - d1) / (c2 - c1)
+                        R::int(d1 as i128)
+                            .add(R::new((c - c1) as i128 * (d2 - d1) as i128, (c2 - c1) as i128))
+                    }
+                }
+            };
+            let (pd, fd) = (explicit[prec].unwrap(), explicit[foll].unwrap());
+            out[t] = (
+                one(coords[t].0, coords[prec].0, coords[foll].0, pd.0, fd.0),
+                one(coords[t].1, coords[prec].1, coords[foll].1, pd.1, fd.1),
+            );
+        }
+    }
+    out
+}
+
+/// err² <= tol² exactly; tol = tol2 / 2 (tolerances are multiples of one half)
+fn within(inferred: (R, R), want: (i64, i64), tol2: i64) -> bool {
+    let ex = inferred.0.sub(R::int(want.0 as i128));
+    let ey = inferred.1.sub(R::int(want.1 as i128));
+    // 4 (ex.n² ey.d² + ey.n² ex.d²) <= tol2² ex.d² ey.d²
+    let lhs = 4 * (ex.n * ex.n * ey.d * ey.d + ey.n * ey.n * ex.d * ex.d);
+    let rhs = (tol2 as i128) * (tol2 as i128) * ex.d * ex.d * ey.d * ey.d;
+    lhs <= rhs
+}
+
+// ---------------------------------------------------------------------------
+
+struct Local {
+    all: HashSet<u64>,
+    nontrivial: HashSet<u64>,
+    evals: u64,
+    trans: u64,
+    optional: u64,
+    deltas: u64,
+    sparse: u64,
+    dense: u64,
+    long_offsets: u64,
+    shared_points: u64,
+    halfway: u64,
+    hb_unshifted: u64,
+}
+impl Local {
+    fn new() -> Self {
+        Local {
+            all: HashSet::new(),
+            nontrivial: HashSet::new(),
+            evals: 0,
+            trans: 0,
+            optional: 0,
+            deltas: 0,
+            sparse: 0,
+            dense: 0,
+            long_offsets: 0,
+            shared_points: 0,
+            halfway: 0,
+            hb_unshifted: 0,
+        }
+    }
+    fn merge(self, run: &Run, p: &str) {
+        run.observe_many(&self.all, &self.nontrivial);
+        run.evals(self.evals);
+        run.trans(self.trans);
+        run.count(&format!("{p}.cases"), self.evals);
+        if self.deltas > 0 {
+            run.count(&format!("{p}.deltas"), self.deltas);
+            run.count(&format!("{p}.deltas_marked_optional"), self.optional);
+        }
+        if self.sparse + self.dense > 0 {
+            run.count(&format!("{p}.tuples_sparse"), self.sparse);
+            run.count(&format!("{p}.tuples_dense"), self.dense);
+            run.count(&format!("{p}.tables_with_long_offsets"), self.long_offsets);
+            run.count(&format!("{p}.tuples_using_shared_points"), self.shared_points);
+        }
+        if self.hb_unshifted > 0 {
+            run.count(&format!("{p}.harfbuzz_style_draws_not_relative_to_varied_origin"), self.hb_unshifted);
+        }
+        if self.halfway > 0 {
+            run.count(&format!("{p}.coordinates_within_error_bound_of_a_half"), self.halfway);
+        }
+    }
+}
+
+// ---------------------------------------------------------------------------
+// (a) optimiser
+// ---------------------------------------------------------------------------
+
+const XS: [i64; 4] = [0, 1, 2, 10];
+const DS: [i64; 5] = [-2, -1, 0, 1, 2];
+const TOLS2: [i64; 4] = [0, 1, 2, 5]; // tolerance × 2
+
+#[derive(Clone, Debug)]
+struct IupCase {
+    coords: Vec<(i64, i64)>, // real points only
+    deltas: Vec<(i64, i64)>, // real points + 4 phantoms
+    ends: Vec<usize>,
+    tol2: i64,
+}
+
+fn iup_json(c: &IupCase) -> Value {
+    json!({"kind":"iup","coords":c.coords,"deltas":c.deltas,"ends":c.ends,"tol2":c.tol2})
+}
+fn iup_from_json(v: &Value) -> IupCase {
+    let pairs = |a: &Value| -> Vec<(i64, i64)> {
+        a.as_array()
+            .unwrap()
+            .iter()
+            .map(|p| (p[0].as_i64().unwrap(), p[1].as_i64().unwrap()))
+            .collect()
+    };
+    IupCase {
+        coords: pairs(&v["coords"]),
+        deltas: pairs(&v["deltas"]),
+        ends: v["ends"].as_array().unwrap().iter().map(|e| e.as_u64().unwrap() as usize).collect(),
+        tol2: v["tol2"].as_i64().unwrap(),
+    }
+}
+
+/// phantom coordinates used throughout: advance 50, nothing vertical
+fn with_phantoms(coords: &[(i64, i64)]) -> Vec<(i64, i64)> {
+    let mut v = coords.to_vec();
+    v.extend([(0, 0), (50, 0), (0, 0), (0, 0)]);
+    v
+}
+
+/// Run the real optimiser and check the statement; returns its output for reuse by (b1).
+fn check_iup(run: &Run, c: &IupCase, l: &mut Local) -> Option<Vec<GlyphDelta>> {
+    l.evals += 1;
+    l.trans += 1;
+    let all = with_phantoms(&c.coords);
+    let kd: Vec<Vec2> = c.deltas.iter().map(|d| Vec2::new(d.0 as f64, d.1 as f64)).collect();
+    let kc: Vec<KPoint> = all.iter().map(|p| KPoint::new(p.0 as f64, p.1 as f64)).collect();
+    let tol = c.tol2 as f64 / 2.0;
+    let ends = c.ends.clone();
+    let res = match guard(|| iup_delta_optimize(kd, kc, tol, &ends)) {
+        Ok(Ok(r)) => r,
+        Ok(Err(e)) => {
+            run.violation(
+                "iup_delta_optimize returns an error for a well-formed glyph",
+                &format!("{e:?}"),
+                iup_json(c),
+            );
+            return None;
+        }
+        Err(p) => {
+            run.violation(
+                &format!("iup_delta_optimize panic: {} in {}", p.kind(), p.site()),
+                &format!("{} ({}:{})", p.message, p.file, p.line),
+                iup_json(c),
+            );
+            return None;
+        }
+    };
+    if res.len() != all.len() {
+        run.violation(
+            "iup_delta_optimize returns the wrong number of deltas",
+            &format!("{} for {} points", res.len(), all.len()),
+            iup_json(c),
+        );
+        return None;
+    }
+    let explicit: Vec<Option<(i64, i64)>> =
+        res.iter().map(|d| d.required.then_some((d.x as i64, d.y as i64))).collect();
+    let inferred = infer(&all, &c.ends, &explicit);
+    let mut h = Fnv::new();
+    h.u64(c.tol2 as u64);
+    let mut nopt = 0;
+    for i in 0..all.len() {
+        let want = c.deltas[i];
+        if res[i].required {
+            if (res[i].x as i64, res[i].y as i64) != want {
+                run.violation(
+                    "iup_delta_optimize changes the value of a retained delta",
+                    &format!("point {i}: {:?} vs input {:?}", (res[i].x, res[i].y), want),
+                    iup_json(c),
+                );
+                return None;
+            }
+        } else {
+            nopt += 1;
+            if !within(inferred[i], want, c.tol2) {
+                let class = if i >= c.coords.len() {
+                    "phantom point"
+                } else if c.ends.len() > 1 {
+                    "point of a multi-contour glyph"
+                } else {
+                    "contour point"
+                };
+                run.violation(
+                    &format!(
+                        "iup_delta_optimize marks a delta optional that inference does not reproduce within tolerance ({class}, tolerance {})",
+                        tol
+                    ),
+                    &format!(
+                        "point {i}: input delta {:?}, inferred ({}, {}) from retained {:?}",
+                        want,
+                        inferred[i].0.to_f64(),
+                        inferred[i].1.to_f64(),
+                        explicit
+                    ),
+                    iup_json(c),
+                );
+                return None;
+            }
+        }
+        h.u64(res[i].required as u64);
+        h.i64(want.0);
+        h.i64(want.1);
+        if i < c.coords.len() {
+            h.i64(c.coords[i].0);
+            h.i64(c.coords[i].1);
+        }
+    }
+    l.deltas += all.len() as u64;
+    l.optional += nopt;
+    let d = h.finish();
+    l.all.insert(d);
+    if nopt > 0 && nopt < all.len() as u64 {
+        l.nontrivial.insert(d);
+    }
+    Some(res)
+}
+
+/// family a1: per point (x, dx); y_i = x_{i+1}, dy_i = -dx_{i+2}
+fn a1_case(digits: &[usize], tol2: i64) -> IupCase {
+    let n = digits.len();
+    let xs: Vec<i64> = digits.iter().map(|d| XS[d % 4]).collect();
+    let dx: Vec<i64> = digits.iter().map(|d| DS[d / 4]).collect();
+    let coords: Vec<(i64, i64)> = (0..n).map(|i| (xs[i], xs[(i + 1) % n])).collect();
+    let mut deltas: Vec<(i64, i64)> = (0..n).map(|i| (dx[i], -dx[(i + 2) % n])).collect();
+    // phantom deltas: advance delta only, derived from the first point
+    deltas.extend([(0, 0), (dx[0], 0), (0, 0), (0, 0)]);
+    IupCase { coords, deltas, ends: vec![n - 1], tol2 }
+}
+/// family a2: per point (x, dx, dy); y rotated
+fn a2_case(digits: &[usize], tol2: i64) -> IupCase {
+    let n = digits.len();
+    let xs: Vec<i64> = digits.iter().map(|d| XS[d % 4]).collect();
+    let coords: Vec<(i64, i64)> = (0..n).map(|i| (xs[i], xs[(i + 1) % n])).collect();
+    let mut deltas: Vec<(i64, i64)> =
+        digits.iter().map(|d| (DS[(d / 4) % 5], DS[d / 20])).collect();
+    deltas.extend([(0, 0), (0, 0), (0, 0), (0, 0)]);
+    IupCase { coords, deltas, ends: vec![n - 1], tol2 }
+}
+/// family a3: per point (x, y, dx, dy) all independent
+fn a3_case(digits: &[usize], tol2: i64) -> IupCase {
+    let n = digits.len();
+    let coords: Vec<(i64, i64)> = digits.iter().map(|d| (XS[d % 4], XS[(d / 4) % 4])).collect();
+    let mut deltas: Vec<(i64, i64)> =
+        digits.iter().map(|d| (DS[(d / 16) % 5], DS[d / 80])).collect();
+    deltas.extend([(1, 0), (-1, 0), (0, 2), (0, 0)]);
+    IupCase { coords, deltas, ends: vec![n - 1], tol2 }
+}
+
+fn next_digits(d: &mut [usize], radix: usize) -> bool {
+    for i in (0..d.len()).rev() {
+        d[i] += 1;
+        if d[i] < radix {
+            return true;
+        }
+        d[i] = 0;
+    }
+    false
+}
+
+fn sweep_family(
+    run: &Run,
+    name: &str,
+    radix: usize,
+    n: usize,
+    make: &(dyn Fn(&[usize], i64) -> IupCase + Sync),
+) {
+    // parallel grain: the first one or two digits
+    let fixed = n.min(2);
+    let grain = radix.pow(fixed as u32);
+    let locals: Vec<Local> = (0..grain)
+        .into_par_iter()
+        .map(|t| {
+            let mut l = Local::new();
+            let mut digits = vec![0usize; n];
+            if fixed == 2 {
+                digits[0] = t / radix;
+                digits[1] = t % radix;
+            } else {
+                digits[0] = t;
+            }
+            loop {
+                for tol2 in TOLS2 {
+                    let c = make(&digits, tol2);
+                    check_iup(run, &c, &mut l);
+                }
+                if n == fixed || !next_digits(&mut digits[fixed..], radix) {
+                    break;
+                }
+            }
+            l
+        })
+        .collect();
+    for l in locals {
+        l.merge(run, &format!("a.{name}.n{n}"));
+    }
+}
+
+fn optimiser_families(run: &Run) {
+    let (n1, n2, n3) = match run.tier {
+        Tier::Quick => (5, 3, 2),
+        Tier::Thorough => (6, 4, 3),
+    };
+    run.bound("a.x_alphabet", json!(XS));
+    run.bound("a.delta_alphabet", json!(DS));
+    run.bound("a.tolerances", json!([0.0, 0.5, 1.0, 2.5]));
+    run.bound("a.a1_max_points(y,dy rotated copies)", json!(n1));
+    run.bound("a.a2_max_points(dx,dy independent)", json!(n2));
+    run.bound("a.a3_max_points(x,y,dx,dy independent)", json!(n3));
+    for n in 1..=n1 {
+        sweep_family(run, "a1", 20, n, &a1_case);
+    }
+    for n in 1..=n2 {
+        sweep_family(run, "a2", 100, n, &a2_case);
+    }
+    for n in 1..=n3 {
+        sweep_family(run, "a3", 400, n, &a3_case);
+    }
+    // two-contour glyphs: all pairs of a1 n=2 sets; thorough adds n=2 × n=3
+    let second_n: &[usize] = match run.tier {
+        Tier::Quick => &[2],
+        Tier::Thorough => &[2, 3],
+    };
+    run.bound("a.two_contour_pairs", json!(format!("a1 n=2 × a1 n in {second_n:?}")));
+    for &m in second_n {
+        let locals: Vec<Local> = (0..400usize)
+            .into_par_iter()
+            .map(|t| {
+                let mut l = Local::new();
+                let first = a1_case(&[t / 20, t % 20], 0);
+                let mut digits = vec![0usize; m];
+                loop {
+                    let second = a1_case(&digits, 0);
+                    for tol2 in TOLS2 {
+                        let mut coords = first.coords.clone();
+                        coords.extend(second.coords.iter().map(|p| (p.0 + 20, p.1 - 5)));
+                        let mut deltas: Vec<(i64, i64)> = first.deltas[..2].to_vec();
+                        deltas.extend_from_slice(&second.deltas[..m]);
+                        deltas.extend([(0, 0), (second.deltas[0].0, 0), (0, 0), (0, 0)]);
+                        let c = IupCase { coords, deltas, ends: vec![1, 1 + m], tol2 };
+                        check_iup(run, &c, &mut l);
+                    }
+                    if !next_digits(&mut digits, 20) {
+                        break;
+                    }
+                }
+                l
+            })
+            .collect();
+        for l in locals {
+            l.merge(run, &format!("a.two_contours.2x{m}"));
+        }
+    }
+    run.sample(iup_json(&a1_case(&[3, 9, 14, 0], 1)));
+}
+
+// ---------------------------------------------------------------------------
+// (b) encoding round trip
+// ---------------------------------------------------------------------------
+
+/// One region: per axis (peak, optional (start, end)) in F2Dot14 bits
+type Region = Vec<(i16, Option<(i16, i16)>)>;
+
+#[derive(Clone, Debug)]
+struct TupleSpec {
+    region: Region,
+    deltas: Vec<(i16, i16, bool)>, // per point incl. phantoms: x, y, required
+}
+
+#[derive(Clone, Debug)]
+struct GlyphSpec {
+    coords: Vec<(i64, i64)>, // real points
+    ends: Vec<usize>,
+    tuples: Vec<TupleSpec>,
+    tol2: i64, // tolerance ×2 under which optional deltas were declared
+}
+
+fn region_json(r: &Region) -> Value {
+    json!(r
+        .iter()
+        .map(|(p, i)| json!({"peak":p,"inter":i.map(|(a,b)| vec![a,b])}))
+        .collect::<Vec<_>>())
+}
+fn region_from_json(v: &Value) -> Region {
+    v.as_array()
+        .unwrap()
+        .iter()
+        .map(|a| {
+            (
+                a["peak"].as_i64().unwrap() as i16,
+                a["inter"]
+                    .as_array()
+                    .map(|x| (x[0].as_i64().unwrap() as i16, x[1].as_i64().unwrap() as i16)),
+            )
+        })
+        .collect()
+}
+fn glyph_json(g: &GlyphSpec) -> Value {
+    json!({
+        "coords": g.coords, "ends": g.ends, "tol2": g.tol2,
+        "tuples": g.tuples.iter().map(|t| json!({
+            "region": region_json(&t.region),
+            "deltas": t.deltas.iter().map(|d| json!([d.0,d.1,d.2 as u8])).collect::<Vec<_>>(),
+        })).collect::<Vec<_>>(),
+    })
+}
+fn glyph_from_json(v: &Value) -> GlyphSpec {
+    GlyphSpec {
+        coords: v["coords"]
+            .as_array()
+            .unwrap()
+            .iter()
+            .map(|p| (p[0].as_i64().unwrap(), p[1].as_i64().unwrap()))
+            .collect(),
+        ends: v["ends"].as_array().unwrap().iter().map(|e| e.as_u64().unwrap() as usize).collect(),
+        tol2: v["tol2"].as_i64().unwrap(),
+        tuples: v["tuples"]
+            .as_array()
+            .unwrap()
+            .iter()
+            .map(|t| TupleSpec {
+                region: region_from_json(&t["region"]),
+                deltas: t["deltas"]
+                    .as_array()
+                    .unwrap()
+                    .iter()
+                    .map(|d| {
+                        (
+                            d[0].as_i64().unwrap() as i16,
+                            d[1].as_i64().unwrap() as i16,
+                            d[2].as_i64().unwrap() != 0,
+                        )
+                    })
+                    .collect(),
+            })
+            .collect(),
+    }
+}
+
+fn tents_of(r: &Region) -> Vec<Tent> {
+    r.iter()
+        .map(|(p, i)| {
+            Tent::new(
+                F2Dot14::from_bits(*p),
+                i.map(|(a, b)| (F2Dot14::from_bits(a), F2Dot14::from_bits(b))),
+            )
+        })
+        .collect()
+}
+
+/// effective (start, peak, end) per axis
+fn effective(r: &Region) -> Vec<(i16, i16, i16)> {
+    r.iter()
+        .map(|(p, i)| match i {
+            Some((a, b)) => (*a, *p, *b),
+            None => ((*p).min(0), *p, (*p).max(0)),
+        })
+        .collect()
+}
+
+fn build_gvar(glyphs: &[GlyphSpec], axis_count: u16) -> Result<Vec<u8>, String> {
+    let vars: Vec<GlyphVariations> = glyphs
+        .iter()
+        .enumerate()
+        .map(|(gid, g)| {
+            GlyphVariations::new(
+                GlyphId::new(gid as u32),
+                g.tuples
+                    .iter()
+                    .map(|t| {
+                        GlyphDeltas::new(
+                            tents_of(&t.region),
+                            t.deltas.iter().map(|d| GlyphDelta::new(d.0, d.1, d.2)).collect(),
+                        )
+                    })
+                    .collect(),
+            )
+        })
+        .collect();
+    let gvar = Gvar::new(vars, axis_count).map_err(|e| format!("Gvar::new: {e}"))?;
+    dump_table(&gvar).map_err(|e| format!("dump_table: {e}"))
+}
+
+/// Decoded tuple: region + explicit deltas per point
+struct Decoded {
+    eff: Vec<(i16, i16, i16)>,
+    explicit: Vec<Option<(i64, i64)>>,
+    all_points: bool,
+}
+
+fn decode_glyph(
+    gvar: &rgvar::Gvar,
+    gid: u32,
+    npoints: usize,
+    axis_count: usize,
+) -> Result<Vec<Decoded>, String> {
+    let Some(data) = gvar
+        .glyph_variation_data(GlyphId::new(gid))
+        .map_err(|e| format!("glyph_variation_data: {e}"))?
+    else {
+        return Ok(vec![]);
+    };
+    let mut out = vec![];
+    for t in data.tuples() {
+        let peak = t.peak();
+        if peak.len() != axis_count {
+            return Err(format!("peak tuple has {} axes", peak.len()));
+        }
+        let (s, e) = (t.intermediate_start(), t.intermediate_end());
+        let eff = (0..axis_count)
+            .map(|i| {
+                let p = peak.get(i).unwrap().to_bits();
+                match (&s, &e) {
+                    (Some(s), Some(e)) => (s.get(i).unwrap().to_bits(), p, e.get(i).unwrap().to_bits()),
+                    _ => (p.min(0), p, p.max(0)),
+                }
+            })
+            .collect();
+        let mut explicit = vec![None; npoints];
+        let mut count = 0usize;
+        for d in t.deltas() {
+            count += 1;
+            if count > npoints + 8 {
+                return Err("tuple yields more deltas than the glyph has points".into());
+            }
+            let pos = d.position as usize;
+            if pos >= npoints {
+                return Err(format!("delta for point {pos} of {npoints}"));
+            }
+            if explicit[pos].is_some() {
+                return Err(format!("two deltas for point {pos}"));
+            }
+            explicit[pos] = Some((d.x_delta as i64, d.y_delta as i64));
+        }
+        out.push(Decoded { eff, explicit, all_points: t.has_deltas_for_all_points() });
+    }
+    Ok(out)
+}
+
+/// The statement for one glyph: tuples == regions; explicit + inference reproduces the input.
+fn compare_glyph(g: &GlyphSpec, dec: &[Decoded]) -> Option<(String, String)> {
+    if dec.len() != g.tuples.len() {
+        return Some(("tuple count".into(), format!("{} read, {} written", dec.len(), g.tuples.len())));
+    }
+    let all = with_phantoms(&g.coords);
+    for (ti, (t, d)) in g.tuples.iter().zip(dec.iter()).enumerate() {
+        let want = effective(&t.region);
+        if want != d.eff {
+            let inter = t.region.iter().any(|a| a.1.is_some());
+            return Some((
+                format!("region ({})", if inter { "intermediate" } else { "peak only" }),
+                format!("tuple {ti}: read {:?}, written {:?}", d.eff, want),
+            ));
+        }
+        let inferred = infer(&all, &g.ends, &d.explicit);
+        for (i, dl) in t.deltas.iter().enumerate() {
+            let want = (dl.0 as i64, dl.1 as i64);
+            let where_ = if i >= g.coords.len() { "phantom point" } else { "contour point" };
+            if dl.2 {
+                if d.explicit[i] != Some(want) {
+                    return Some((
+                        format!("required delta not read back exactly ({where_})"),
+                        format!("tuple {ti} point {i}: read {:?}, written {:?}", d.explicit[i], want),
+                    ));
+                }
+            } else if !within(inferred[i], want, g.tol2) {
+                return Some((
+                    format!(
+                        "optional delta not reproduced within tolerance ({where_}, {})",
+                        if d.explicit[i].is_some() { "explicitly encoded" } else { "inferred" }
+                    ),
+                    format!(
+                        "tuple {ti} point {i}: got ({}, {}), declared {:?} tol {}",
+                        inferred[i].0.to_f64(),
+                        inferred[i].1.to_f64(),
+                        want,
+                        g.tol2 as f64 / 2.0
+                    ),
+                ));
+            }
+        }
+    }
+    None
+}
+
+fn check_gvar(run: &Run, family: &str, glyphs: &[GlyphSpec], axis_count: u16, l: &mut Local, case: &dyn Fn() -> Value) -> Option<Vec<u8>> {
+    l.evals += 1;
+    l.trans += 2;
+    let bytes = match guard(|| build_gvar(glyphs, axis_count)) {
+        Ok(Ok(b)) => b,
+        Ok(Err(e)) => {
+            run.violation(&format!("{family}: gvar builder rejects a well-formed input"), &e, case());
+            return None;
+        }
+        Err(p) => {
+            run.violation(
+                &format!("{family}: gvar build panic: {} in {}", p.kind(), p.site()),
+                &format!("{} ({}:{})", p.message, p.file, p.line),
+                case(),
+            );
+            return None;
+        }
+    };
+    let r = guard(|| {
+        let gvar = match rgvar::Gvar::read(FontData::new(&bytes)) {
+            Ok(g) => g,
+            Err(e) => return Some(("compiled gvar does not parse".to_string(), format!("{e}"))),
+        };
+        if gvar.axis_count() != axis_count || gvar.glyph_count() as usize != glyphs.len() {
+            return Some(("gvar header counts".into(), format!("{} axes, {} glyphs", gvar.axis_count(), gvar.glyph_count())));
+        }
+        let long = gvar.flags().contains(rgvar::GvarFlags::LONG_OFFSETS);
+        if long {
+            l.long_offsets += 1;
+        }
+        let mut h = Fnv::new();
+        h.str(family);
+        h.u64(long as u64);
+        for (gid, g) in glyphs.iter().enumerate() {
+            l.trans += 1;
+            let dec = match decode_glyph(&gvar, gid as u32, g.coords.len() + 4, axis_count as usize) {
+                Ok(d) => d,
+                Err(e) => return Some(("glyph variation data unreadable".into(), format!("glyph {gid}: {e}"))),
+            };
+            if let Some((id, detail)) = compare_glyph(g, &dec) {
+                return Some((id, format!("glyph {gid}: {detail}")));
+            }
+            for d in &dec {
+                if d.all_points {
+                    l.dense += 1;
+                } else {
+                    l.sparse += 1;
+                }
+                h.u64(d.all_points as u64);
+                for a in &d.eff {
+                    h.i64(a.0 as i64);
+                    h.i64(a.1 as i64);
+                    h.i64(a.2 as i64);
+                }
+                for e in &d.explicit {
+                    match e {
+                        Some((x, y)) => {
+                            h.i64(*x);
+                            h.i64(*y);
+                        }
+                        None => h.u64(0x8000_0000_0000),
+                    }
+                }
+            }
+        }
+        // shared point numbers in use?  (count via the raw header bit of each glyph)
+        for gid in 0..glyphs.len() {
+            if let Ok(Some(d)) = gvar.data_for_gid(GlyphId::new(gid as u32)) {
+                if d.read_at::<u16>(0).map(|c| c & 0x8000 != 0).unwrap_or(false) {
+                    l.shared_points += 1;
+                }
+            }
+        }
+        let dg = h.finish();
+        l.all.insert(dg);
+        if glyphs.iter().any(|g| g.tuples.iter().any(|t| t.deltas.iter().any(|d| d.0 != 0 || d.1 != 0))) {
+            l.nontrivial.insert(dg);
+        }
+        None
+    });
+    match r {
+        Ok(None) => Some(bytes),
+        Ok(Some((id, detail))) => {
+            run.violation(&format!("gvar round trip: {id}"), &detail, case());
+            None
+        }
+        Err(p) => {
+            run.violation(
+                &format!("gvar reader panic: {} in {}", p.kind(), p.site()),
+                &format!("{} ({}:{})", p.message, p.file, p.line),
+                case(),
+            );
+            None
+        }
+    }
+}
+
+fn gvar_case_json(family: &str, glyphs: &[GlyphSpec], axis_count: u16) -> Value {
+    json!({"kind":"gvar","family":family,"axis_count":axis_count,"glyphs":glyphs.iter().map(glyph_json).collect::<Vec<_>>()})
+}
+
+const ONE: i16 = 0x4000;
+/// the four single-axis tents of the design: peak only, with intermediate, peak at -1, at 0x0001
+fn tents_1axis() -> Vec<Region> {
+    vec![
+        vec![(ONE, None)],
+        vec![(ONE / 2, Some((ONE / 4, ONE)))],
+        vec![(-ONE, None)],
+        vec![(1, None)],
+    ]
+}
+fn tents_2axis() -> Vec<Region> {
+    vec![
+        vec![(ONE, None), (0, None)],
+        vec![(ONE / 2, Some((ONE / 4, ONE))), (-ONE, Some((-ONE, 0)))],
+        vec![(-ONE, None), (ONE, None)],
+        vec![(1, None), (0x2000, Some((0x1000, 0x3000)))],
+    ]
+}
+
+/// (b1) the optimiser's own output through the encoder
+fn pipeline_family(run: &Run) {
+    let tents = tents_1axis();
+    run.bound("b1.source", json!("every a1 case with n <= 3 under 4 tents; n = 4 under tent 0"));
+    for n in 1..=4usize {
+        let grain = if n >= 2 { 400 } else { 20 };
+        let locals: Vec<Local> = (0..grain)
+            .into_par_iter()
+            .map(|t| {
+                let mut l = Local::new();
+                let mut sink = Local::new();
+                let mut digits = vec![0usize; n];
+                let fixed = n.min(2);
+                if n >= 2 {
+                    digits[0] = t / 20;
+                    digits[1] = t % 20;
+                } else {
+                    digits[0] = t;
+                }
+                loop {
+                    for tol2 in TOLS2 {
+                        let c = a1_case(&digits, tol2);
+                        if let Some(res) = check_iup(run, &c, &mut sink) {
+                            let ntents = if n <= 3 { tents.len() } else { 1 };
+                            for region in tents.iter().take(ntents) {
+                                let g = GlyphSpec {
+                                    coords: c.coords.clone(),
+                                    ends: c.ends.clone(),
+                                    tol2,
+                                    tuples: vec![TupleSpec {
+                                        region: region.clone(),
+                                        deltas: res.iter().map(|d| (d.x, d.y, d.required)).collect(),
+                                    }],
+                                };
+                                let gs = [g];
+                                let case = || gvar_case_json("b1", &gs, 1);
+                                check_gvar(run, "b1", &gs, 1, &mut l, &case);
+                            }
+                        }
+                    }
+                    if n == fixed || !next_digits(&mut digits[fixed..], 20) {
+                        break;
+                    }
+                }
+                l
+            })
+            .collect();
+        for l in locals {
+            l.merge(run, &format!("b1.n{n}"));
+        }
+    }
+}
+
+/// coordinates of the structured glyphs: deterministic scatter, one contour
+fn scatter(n: usize) -> Vec<(i64, i64)> {
+    (0..n).map(|i| (((i * 37) % 211) as i64, ((i * 91) % 197) as i64 - 60)).collect()
+}
+
+const PATTERNS: usize = 7;
+fn pattern_delta(p: usize, i: usize, n: usize) -> (i16, i16) {
+    match p {
+        0 => (0, 0),
+        1 => (1, -1),
+        2 => (if i % 2 == 0 { 127 } else { -128 }, 5),
+        3 => (if i % 2 == 0 { 128 } else { -129 }, -300),
+        4 => if i < n / 2 { (0, 0) } else { (7, 0) },
+        5 => if i == n / 3 { (32767, -32768) } else { (0, 1) },
+        _ => match i % 5 {
+            0 => (0, 0),
+            1 => (0, 0),
+            2 => (100, 200),
+            3 => (1000, -1),
+            _ => (-3, 0),
+        },
+    }
+}
+
+const MASKS: usize = 11;
+fn mask_required(m: usize, i: usize, n: usize) -> bool {
+    match m {
+        0 => true,
+        1 => false,
+        2 => i == 0,
+        3 => i + 1 == n,
+        4 => i % 2 == 0,
+        5 => i % 3 == 1,
+        6 => i == 0 || i + 1 == n,
+        7 => i < 127.min(n),
+        8 => i < 128.min(n),
+        9 => i < 129.min(n),
+        _ => i % 256 == 0 || i % 255 == 3 || i % 257 == 9, // point-number gaps 255 / 256 / 257 and shorter
+    }
+}
+
+/// Build one tuple's deltas over `n` real points: required ones carry the pattern value; optional ones
+/// are *declared* as the (rounded) value inference gives from the required ones, so the declaration
+/// is consistent; tolerance 0.75 >= sqrt(0.5) covers the rounding of both axes.
+fn structured_tuple(n: usize, pattern: usize, mask: usize, region: &Region) -> TupleSpec {
+    let coords = with_phantoms(&scatter(n));
+    let total = n + 4;
+    let explicit: Vec<Option<(i64, i64)>> = (0..total)
+        .map(|i| {
+            // phantom point 2 (advance) is required under some masks; masks 7..9 must give exactly
+            // 127 / 128 / 129 referenced points (the one-byte / two-byte point count switch)
+            let req = if i < n { mask_required(mask, i, n) } else { matches!(mask, 0 | 2 | 4 | 6 | 10) && i == n + 1 };
+            req.then(|| {
+                let d = pattern_delta(pattern, i, total);
+                (d.0 as i64, d.1 as i64)
+            })
+        })
+        .collect();
+    let inferred = infer(&coords, &[n - 1], &explicit);
+    let round = |r: R| -> i16 { (r.to_f64() + 0.5).floor() as i16 };
+    TupleSpec {
+        region: region.clone(),
+        deltas: (0..total)
+            .map(|i| match explicit[i] {
+                Some((x, y)) => (x as i16, y as i16, true),
+                None => (round(inferred[i].0), round(inferred[i].1), false),
+            })
+            .collect(),
+    }
+}
+
+fn structured_family(run: &Run) {
+    let counts: Vec<usize> = match run.tier {
+        Tier::Quick => vec![1, 2, 3, 63, 64, 65, 127, 128, 129, 130, 255, 256, 257, 520],
+        Tier::Thorough => {
+            let mut v: Vec<usize> = (1..=70).collect();
+            v.extend(120..=135);
+            v.extend(250..=262);
+            v.extend([300, 511, 512, 513, 520, 600]);
+            v
+        }
+    };
+    run.bound("b2.point_counts", json!(counts));
+    run.bound("b2.delta_patterns", json!(["zero", "byte ±1", "byte 127/-128", "word 128/-129,-300", "zero run then byte", "single 32767/-32768 spike", "mixed zero/byte/word"]));
+    run.bound("b2.masks", json!(["all required", "none", "first", "last", "every 2nd", "every 3rd", "first+last", "first 127", "first 128", "first 129", "gaps 255/256/257"]));
+    run.bound("b2.tents", json!({"1 axis": tents_1axis().iter().map(region_json).collect::<Vec<_>>(), "2 axes": tents_2axis().iter().map(region_json).collect::<Vec<_>>()}));
+    run.bound("b2.glyph_configs", json!(["one glyph one region", "one glyph two regions same mask (shared points candidate)", "one glyph two regions different masks", "two glyphs same region (shared tuple candidate)"]));
+    let mut tasks = vec![];
+    for &n in &counts {
+        for p in 0..PATTERNS {
+            for m in 0..MASKS {
+                tasks.push((n, p, m));
+            }
+        }
+    }
+    run.count("b2.count_pattern_mask_triples", tasks.len() as u64);
+    let locals: Vec<Local> = tasks
+        .par_iter()
+        .map(|&(n, p, m)| {
+            let mut l = Local::new();
+            for axes in [1u16, 2] {
+                let tents = if axes == 1 { tents_1axis() } else { tents_2axis() };
+                for (ti, region) in tents.iter().enumerate() {
+                    let other = &tents[(ti + 1) % tents.len()];
+                    let base = |tuples: Vec<TupleSpec>| GlyphSpec {
+                        coords: scatter(n),
+                        ends: vec![n - 1],
+                        tol2: 2, // 1.0 >= 0.75
+                        tuples,
+                    };
+                    let t0 = structured_tuple(n, p, m, region);
+                    let configs: Vec<Vec<GlyphSpec>> = vec![
+                        vec![base(vec![t0.clone()])],
+                        vec![base(vec![t0.clone(), structured_tuple(n, (p + 1) % PATTERNS, m, other)])],
+                        vec![base(vec![t0.clone(), structured_tuple(n, p, (m + 1) % MASKS, other)])],
+                        vec![
+                            base(vec![t0.clone()]),
+                            base(vec![structured_tuple(n, (p + 2) % PATTERNS, m, region), structured_tuple(n, p, m, other)]),
+                        ],
+                    ];
+                    for gs in &configs {
+                        let case = || gvar_case_json("b2", gs, axes);
+                        check_gvar(run, "b2", gs, axes, &mut l, &case);
+                    }
+                }
+            }
+            l
+        })
+        .collect();
+    for l in locals {
+        l.merge(run, "b2");
+    }
+    let gs = vec![GlyphSpec { coords: scatter(3), ends: vec![2], tol2: 2, tuples: vec![structured_tuple(3, 6, 4, &tents_1axis()[1])] }];
+    run.sample(gvar_case_json("b2", &gs, 1));
+}
+
+/// (b3) total data size swept across the short/long offsets switch (131070 / 131072 bytes)
+fn offsets_family(run: &Run) {
+    // three fixed big glyphs + one glyph whose point count is swept
+    let region = tents_1axis()[0].clone();
+    let big = |n: usize, salt: i16| -> GlyphSpec {
+        GlyphSpec {
+            coords: scatter(n),
+            ends: vec![n - 1],
+            tol2: 0,
+            tuples: vec![TupleSpec {
+                region: region.clone(),
+                deltas: (0..n + 4)
+                    .map(|i| (((i % 250) as i16) + 130 + salt, -(((i * 7) % 90) as i16) - 1, true))
+                    .collect(),
+            }],
+        }
+    };
+    // word x deltas (2 bytes) + byte y deltas (1 byte) + run headers: ~3.03 bytes per point
+    let fixed: Vec<GlyphSpec> = vec![big(14000, 0), big(14000, 1), big(14000, 2)];
+    // find the sweep window by measuring, not by formula
+    let size_of = |n: usize| -> usize {
+        let mut gs = fixed.clone();
+        gs.push(big(n, 3));
+        build_gvar(&gs, 1).map(|b| b.len()).unwrap_or(0)
+    };
+    let target = 131072 + 20 + 5 * 2; // header + short offsets, approximately
+    let (mut lo, mut hi) = (100usize, 4000usize);
+    while lo + 1 < hi {
+        let mid = (lo + hi) / 2;
+        if size_of(mid) < target {
+            lo = mid;
+        } else {
+            hi = mid;
+        }
+    }
+    let window: Vec<usize> = (lo.saturating_sub(12)..lo + 14).collect();
+    run.bound("b3.swept_point_counts_of_last_glyph", json!([window[0], window[window.len() - 1]]));
+    let results: Vec<(Local, usize, bool)> = window
+        .par_iter()
+        .map(|&n| {
+            let mut l = Local::new();
+            let mut gs = fixed.clone();
+            gs.push(big(n, 3));
+            // an empty glyph and a small trailing glyph exercise offsets after the big data
+            gs.push(GlyphSpec { coords: scatter(2), ends: vec![1], tol2: 0, tuples: vec![] });
+            gs.push(big(3, 4));
+            let case = || json!({"kind":"offsets","last_glyph_points":n});
+            let bytes = check_gvar(run, "b3", &gs, 1, &mut l, &case);
+            let len = bytes.as_ref().map(|b| b.len()).unwrap_or(0);
+            let long = l.long_offsets > 0;
+            (l, len, long)
+        })
+        .collect();
+    let mut shorts = 0;
+    let mut longs = 0;
+    let mut sizes = vec![];
+    for (l, len, long) in results {
+        if long {
+            longs += 1;
+        } else {
+            shorts += 1;
+        }
+        sizes.push(json!([len, long]));
+        l.merge(run, "b3");
+    }
+    run.extra("b3.table_sizes_and_long_flag", json!(sizes));
+    if shorts == 0 || longs == 0 {
+        run.machinery_error(&format!("b3 sweep does not straddle the offset switch (short {shorts}, long {longs})"));
+    }
+}
+
+fn offsets_replay_glyphs(n: usize) -> Vec<GlyphSpec> {
+    let region = tents_1axis()[0].clone();
+    let big = |n: usize, salt: i16| -> GlyphSpec {
+        GlyphSpec {
+            coords: scatter(n),
+            ends: vec![n - 1],
+            tol2: 0,
+            tuples: vec![TupleSpec {
+                region: region.clone(),
+                deltas: (0..n + 4)
+                    .map(|i| (((i % 250) as i16) + 130 + salt, -(((i * 7) % 90) as i16) - 1, true))
+                    .collect(),
+            }],
+        }
+    };
+    vec![
+        big(14000, 0),
+        big(14000, 1),
+        big(14000, 2),
+        big(n, 3),
+        GlyphSpec { coords: scatter(2), ends: vec![1], tol2: 0, tuples: vec![] },
+        big(3, 4),
+    ]
+}
+
+// ---------------------------------------------------------------------------
+// (c) application through skrifa
+// ---------------------------------------------------------------------------
+
+#[derive(Default)]
+struct PtsPen(Vec<(f32, f32)>, bool);
+impl OutlinePen for PtsPen {
+    fn move_to(&mut self, x: f32, y: f32) {
+        self.0.push((x, y));
+    }
+    fn line_to(&mut self, x: f32, y: f32) {
+        self.0.push((x, y));
+    }
+    fn quad_to(&mut self, _: f32, _: f32, _: f32, _: f32) {
+        self.1 = true;
+    }
+    fn curve_to(&mut self, _: f32, _: f32, _: f32, _: f32, _: f32, _: f32) {
+        self.1 = true;
+    }
+    fn close(&mut self) {}
+}
+
+/// exact tuple scalar per the specification, F2Dot14 bits in, rational out
+fn exact_scalar(eff: &[(i16, i16, i16)], region: &Region, loc: &[i16]) -> R {
+    let mut s = R::int(1);
+    for (i, &(start, peak, end)) in eff.iter().enumerate() {
+        let (start, peak, end, c) = (start as i128, peak as i128, end as i128, loc[i] as i128);
+        if peak == 0 {
+            continue;
+        }
+        if start > peak || peak > end || (start < 0 && end > 0) {
+            continue;
+        }
+        if c == peak {
+            continue;
+        }
+        let explicit_inter = region[i].1.is_some();
+        let _ = explicit_inter;
+        if c <= start || c >= end {
+            return R::int(0);
+        }
+        s = s.mul(if c < peak { R::new(c - start, peak - start) } else { R::new(end - c, end - peak) });
+    }
+    s
+}
+
+#[derive(Clone, Debug)]
+struct FontSpec {
+    glyph: GlyphSpec, // glyph 0 (all points on-curve, polygon contours)
+    axis_count: u16,
+    advance: u16,
+}
+
+fn build_var_font(f: &FontSpec) -> Result<Vec<u8>, String> {
+    let g = &f.glyph;
+    let mut contours = vec![];
+    let mut start = 0;
+    for &e in &g.ends {
+        contours.push(Contour::from(
+            g.coords[start..=e]
+                .iter()
+                .map(|p| read_fonts::tables::glyf::CurvePoint::new(p.0 as i16, p.1 as i16, true))
+                .collect::<Vec<_>>(),
+        ));
+        start = e + 1;
+    }
+    let xs = g.coords.iter().map(|p| p.0 as i16);
+    let ys = g.coords.iter().map(|p| p.1 as i16);
+    let bbox = Bbox {
+        x_min: xs.clone().min().unwrap(),
+        x_max: xs.max().unwrap(),
+        y_min: ys.clone().min().unwrap(),
+        y_max: ys.max().unwrap(),
+    };
+    let glyph = SimpleGlyph { bbox, contours, instructions: vec![] };
+    let mut b = GlyfLocaBuilder::new();
+    b.add_glyph(&glyph).map_err(|e| format!("{e}"))?;
+    let (glyf, loca, fmt) = b.build();
+    let gvar = build_gvar(std::slice::from_ref(g), f.axis_count)?;
+    let head = Head { units_per_em: 1000, index_to_loc_format: fmt as i16, ..Default::default() };
+    let hhea = Hhea { number_of_h_metrics: 1, ..Default::default() };
+    // lsb = xMin, so phantom point 1 sits at x = 0 (with_phantoms assumes (0,0) and (advance,0))
+    let hmtx = Hmtx::new(vec![LongMetric::new(f.advance, bbox.x_min)], vec![]);
+    let mut fb = FontBuilder::new();
+    fb.add_table(&head).map_err(|e| format!("{e}"))?;
+    fb.add_table(&hhea).map_err(|e| format!("{e}"))?;
+    fb.add_table(&hmtx).map_err(|e| format!("{e}"))?;
+    fb.add_table(&Maxp::new(1)).map_err(|e| format!("{e}"))?;
+    fb.add_table(&glyf).map_err(|e| format!("{e}"))?;
+    fb.add_table(&loca).map_err(|e| format!("{e}"))?;
+    fb.add_raw(Tag::new(b"gvar"), gvar);
+    Ok(fb.build())
+}
+
+fn axis_locations(regions: &[Region], axis: usize) -> Vec<i16> {
+    let mut v: Vec<i32> = vec![0, ONE as i32, -(ONE as i32), 1, -1];
+    for r in regions {
+        let (s, p, e) = effective(r)[axis];
+        let (s, p, e) = (s as i32, p as i32, e as i32);
+        v.extend([s - 1, s, s + 1, (s + p) / 2, p - 1, p, p + 1, (p + e) / 2, e - 1, e, e + 1, -p]);
+    }
+    let mut v: Vec<i16> = v.into_iter().filter(|x| (-(ONE as i32)..=ONE as i32).contains(x)).map(|x| x as i16).collect();
+    v.sort();
+    v.dedup();
+    v
+}
+
+fn font_json(f: &FontSpec, loc: &[i16], style: &str) -> Value {
+    json!({"kind":"draw","axis_count":f.axis_count,"advance":f.advance,"glyph":glyph_json(&f.glyph),"location":loc,"style":style})
+}
+
+/// Draw glyph 0 at every location in `locs` and compare with the exact reference.
+fn check_font(run: &Run, f: &FontSpec, locs: &[Vec<i16>], l: &mut Local) {
+    let bytes = match guard(|| build_var_font(f)) {
+        Ok(Ok(b)) => b,
+        Ok(Err(e)) => {
+            run.violation("c: variable font cannot be built", &e, font_json(f, &[], "build"));
+            return;
+        }
+        Err(p) => {
+            run.violation(
+                &format!("c: font build panic: {} in {}", p.kind(), p.site()),
+                &p.message,
+                font_json(f, &[], "build"),
+            );
+            return;
+        }
+    };
+    let g = &f.glyph;
+    let mut all = g.coords.clone();
+    all.extend([(0, 0), (f.advance as i64, 0), (0, 0), (0, 0)]);
+    let n = g.coords.len();
+    // per tuple: exact inferred deltas from what the table carries (verified against the input in (b))
+    let gv = build_gvar(std::slice::from_ref(g), f.axis_count).unwrap();
+    let rg = rgvar::Gvar::read(FontData::new(&gv)).unwrap();
+    let dec = match decode_glyph(&rg, 0, n + 4, f.axis_count as usize) {
+        Ok(d) => d,
+        Err(e) => {
+            run.violation("c: glyph variation data unreadable", &e, font_json(f, &[], "decode"));
+            return;
+        }
+    };
+    let inferred: Vec<Vec<(R, R)>> = dec.iter().map(|d| infer(&all, &g.ends, &d.explicit)).collect();
+    let max_abs: Vec<i128> = dec
+        .iter()
+        .map(|d| d.explicit.iter().flatten().map(|e| e.0.abs().max(e.1.abs())).max().unwrap_or(0) as i128)
+        .collect();
+    let font = match FontRef::new(&bytes) {
+        Ok(f) => f,
+        Err(e) => {
+            run.violation("c: built font does not parse", &format!("{e}"), font_json(f, &[], "parse"));
+            return;
+        }
+    };
+    let Some(og) = font.outline_glyphs().get(GlyphId::new(0)) else {
+        run.violation("c: no outline for glyph 0", "", font_json(f, &[], "parse"));
+        return;
+    };
+    for loc in locs {
+        l.evals += 1;
+        l.trans += 2;
+        let coords: Vec<F2Dot14> = loc.iter().map(|b| F2Dot14::from_bits(*b)).collect();
+        // exact expectation per point
+        let scalars: Vec<R> = g
+            .tuples
+            .iter()
+            .zip(dec.iter())
+            .map(|(t, d)| exact_scalar(&d.eff, &t.region, loc))
+            .collect();
+        let active = scalars.iter().filter(|s| s.n != 0).count();
+        // error bound of the 16.16 pipeline: per active tuple the scalar carries <= A roundings of
+        // 2^-17 each (scaled by |delta|), the product one more, interpolation two more
+        let eps_num: i128 = scalars
+            .iter()
+            .zip(max_abs.iter())
+            .filter(|(s, _)| s.n != 0)
+            .map(|(_, m)| m * f.axis_count as i128 + 3)
+            .sum::<i128>();
+        let eps = R::new(eps_num, 1 << 16);
+        let mut expect: Vec<(R, R)> = vec![];
+        // index n = phantom point 1 (the origin): the scaler shifts the outline so that it lies at x = 0
+        for i in 0..=n {
+            let mut ex = R::int(all[i].0 as i128);
+            let mut ey = R::int(all[i].1 as i128);
+            for (t, s) in scalars.iter().enumerate() {
+                if s.n != 0 {
+                    ex = ex.add(s.mul(inferred[t][i].0));
+                    ey = ey.add(s.mul(inferred[t][i].1));
+                }
+            }
+            expect.push((ex, ey));
+        }
+        for (style_name, style) in [
+            ("freetype", skrifa::outline::pen::PathStyle::FreeType),
+            ("harfbuzz", skrifa::outline::pen::PathStyle::HarfBuzz),
+        ] {
+            let mut pen = PtsPen::default();
+            let settings = DrawSettings::unhinted(Size::unscaled(), LocationRef::new(&coords)).with_path_style(style);
+            let r = guard(|| og.draw(settings, &mut pen));
+            match r {
+                Ok(Ok(_)) => {}
+                Ok(Err(e)) => {
+                    run.violation(&format!("c: draw fails ({style_name})"), &format!("{e}"), font_json(f, loc, style_name));
+                    continue;
+                }
+                Err(p) => {
+                    run.violation(
+                        &format!("c: draw panic: {} in {}", p.kind(), p.site()),
+                        &p.message,
+                        font_json(f, loc, style_name),
+                    );
+                    continue;
+                }
+            }
+            if pen.1 || pen.0.len() != n {
+                run.violation(
+                    &format!("c: drawn outline has the wrong structure ({style_name})"),
+                    &format!("{} points, curves: {}", pen.0.len(), pen.1),
+                    font_json(f, loc, style_name),
+                );
+                continue;
+            }
+            // contours are polygons of on-curve points: the pen sees them in order (move, line…)
+            let mut bad = None;
+            // HarfBuzz-style drawing: the statement read literally (no origin shift) and the FreeType
+            // reading (relative to the varied phantom point 1) are both accepted, consistently for the
+            // whole outline; which one was taken is counted.
+            let mut bad_unshifted = None;
+            for i in 0..n {
+                for (axis, (got, want)) in [(pen.0[i].0, expect[i].0), (pen.0[i].1, expect[i].1)].into_iter().enumerate() {
+                    // origin = varied phantom point 1 (x only)
+                    let origin = if axis == 0 { expect[n].0 } else { R::int(0) };
+                    let ok = if style_name == "freetype" {
+                        // each of point and origin is rounded half up after the 16.16 accumulation;
+                        // either neighbour when an exact value is within eps of a half
+                        let lo = floor_r(want.sub(eps).add(R::new(1, 2)));
+                        let hi = floor_r(want.add(eps).add(R::new(1, 2)));
+                        let olo = floor_r(origin.sub(eps).add(R::new(1, 2)));
+                        let ohi = floor_r(origin.add(eps).add(R::new(1, 2)));
+                        if lo != hi || olo != ohi {
+                            l.halfway += 1;
+                        }
+                        got.fract() == 0.0 && (lo - ohi..=hi - olo).contains(&(got as i128))
+                    } else {
+                        // no rounding step: f32 arithmetic
+                        let w = want.sub(origin).to_f64();
+                        // the tuple scalar is 16.16 here too: same error bound, plus f32 arithmetic
+                        let slack = 2.0 * eps.to_f64() + 0.01 + (want.to_f64().abs() + origin.to_f64().abs()) * 1e-5;
+                        if (got as f64 - want.to_f64()).abs() > slack && bad_unshifted.is_none() {
+                            bad_unshifted = Some(i);
+                        }
+                        (got as f64 - w).abs() <= slack
+                    };
+                    if !ok && bad.is_none() {
+                        bad = Some((i, axis, got, want));
+                    }
+                }
+            }
+            if style_name == "harfbuzz" && bad.is_some() && bad_unshifted.is_none() {
+                // literal reading holds
+                bad = None;
+                l.hb_unshifted += 1;
+            }
+            if let Some((i, axis, got, want)) = bad {
+                let kinds: Vec<&str> = g
+                    .tuples
+                    .iter()
+                    .zip(scalars.iter())
+                    .filter(|(_, s)| s.n != 0)
+                    .map(|(t, _)| if t.region.iter().any(|a| a.1.is_some()) { "intermediate" } else { "peak-only" })
+                    .collect();
+                let sparse = dec.iter().zip(scalars.iter()).any(|(d, s)| s.n != 0 && !d.all_points);
+                run.violation(
+                    &format!(
+                        "drawn outline differs from default + Σ scalar·delta ({style_name}; {} active {:?} tuple(s); {})",
+                        active,
+                        kinds,
+                        if sparse { "inferred deltas" } else { "dense deltas" }
+                    ),
+                    &format!(
+                        "location {:?}: point {i} axis {axis}: drawn {got}, exact {} minus origin {} (scalars {:?})",
+                        loc,
+                        want.to_f64(),
+                        if axis == 0 { expect[n].0.to_f64() } else { 0.0 },
+                        scalars.iter().map(|s| s.to_f64()).collect::<Vec<_>>()
+                    ),
+                    font_json(f, loc, style_name),
+                );
+            }
+            let mut h = Fnv::new();
+            h.str(style_name);
+            for p in &pen.0 {
+                h.u64(p.0.to_bits() as u64);
+                h.u64(p.1.to_bits() as u64);
+            }
+            l.all.insert(h.finish());
+            if active > 0 {
+                l.nontrivial.insert(h.finish());
+            }
+        }
+    }
+}
+
+fn floor_r(r: R) -> i128 {
+    r.n.div_euclid(r.d)
+}
+
+fn application_family(run: &Run) {
+    // glyphs: a triangle + a second contour; delta sets from the structured generator (dense & sparse)
+    let coords: Vec<(i64, i64)> = vec![(10, 0), (110, 7), (60, 93), (200, 10), (260, 10), (260, 70), (200, 70)];
+    let ends = vec![2usize, 6];
+    let n = coords.len();
+    let delta_sets: Vec<Vec<(i16, i16, bool)>> = {
+        let mut v = vec![];
+        // dense: all required, values of mixed size
+        v.push((0..n + 4).map(|i| ((i as i16 * 13) % 31 - 15, (i as i16 * 7) % 23 - 11, true)).collect());
+        // sparse: one point per contour required (others inferred = same delta)
+        v.push((0..n + 4).map(|i| if i == 1 || i == 4 { (33, -17, true) } else if i == n + 1 { (5, 0, true) } else { (0, 0, false) }).collect());
+        // sparse: two per contour (interpolation / clamping), odd values to hit halves
+        v.push((0..n + 4).map(|i| match i { 0 => (1, 3, true), 2 => (-7, 1, true), 3 => (101, -3, true), 5 => (-100, 51, true), _ => (0, 0, false) }).collect());
+        // big deltas
+        v.push((0..n + 4).map(|i| if i < n { (3001 - 1000 * i as i16, -2999 + 500 * i as i16, true) } else { (0, 0, true) }).collect());
+        v
+    };
+    // optional values must be declared consistently: recompute them by inference
+    let fix = |d: &Vec<(i16, i16, bool)>| -> Vec<(i16, i16, bool)> {
+        let mut all = coords.clone();
+        all.extend([(0, 0), (300, 0), (0, 0), (0, 0)]);
+        let explicit: Vec<Option<(i64, i64)>> = d.iter().map(|x| x.2.then_some((x.0 as i64, x.1 as i64))).collect();
+        let inf = infer(&all, &ends, &explicit);
+        d.iter()
+            .enumerate()
+            .map(|(i, x)| if x.2 { *x } else { ((inf[i].0.to_f64() + 0.5).floor() as i16, (inf[i].1.to_f64() + 0.5).floor() as i16, false) })
+            .collect()
+    };
+    let delta_sets: Vec<Vec<(i16, i16, bool)>> = delta_sets.iter().map(fix).collect();
+    let t1 = tents_1axis();
+    let t2 = tents_2axis();
+    run.bound("c.delta_sets", json!(["dense mixed", "sparse 1 per contour", "sparse 2 per contour", "dense large"]));
+    run.bound("c.region_lists", json!("1 axis: each of 4 tents alone, every ordered pair, one triple; 2 axes: each of 4 alone, every ordered pair"));
+    run.bound("c.locations_per_axis", json!("0, ±1.0, ±1 ulp, and for every region start-1..start+1, mid, peak-1..peak+1, mid, end-1..end+1, -peak"));
+    // region lists
+    let mut fonts: Vec<FontSpec> = vec![];
+    for (axes, tents) in [(1u16, &t1), (2u16, &t2)] {
+        let mut lists: Vec<Vec<usize>> = (0..tents.len()).map(|i| vec![i]).collect();
+        for i in 0..tents.len() {
+            for j in 0..tents.len() {
+                if i != j {
+                    lists.push(vec![i, j]);
+                }
+            }
+        }
+        if axes == 1 {
+            lists.push(vec![0, 1, 3]);
+        }
+        for list in &lists {
+            // delta set choice: every set for single regions; rotating assignment for lists
+            let set_choices: Vec<Vec<usize>> = if list.len() == 1 {
+                (0..delta_sets.len()).map(|s| vec![s]).collect()
+            } else {
+                (0..delta_sets.len()).map(|s| (0..list.len()).map(|k| (s + k) % delta_sets.len()).collect()).collect()
+            };
+            for sc in set_choices {
+                fonts.push(FontSpec {
+                    axis_count: axes,
+                    advance: 300,
+                    glyph: GlyphSpec {
+                        coords: coords.clone(),
+                        ends: ends.clone(),
+                        tol2: 2,
+                        tuples: list
+                            .iter()
+                            .zip(sc.iter())
+                            .map(|(r, s)| TupleSpec { region: tents[*r].clone(), deltas: delta_sets[*s].clone() })
+                            .collect(),
+                    },
+                });
+            }
+        }
+    }
+    run.count("c.fonts", fonts.len() as u64);
+    let locals: Vec<Local> = fonts
+        .par_iter()
+        .map(|f| {
+            let mut l = Local::new();
+            let regions: Vec<Region> = f.glyph.tuples.iter().map(|t| t.region.clone()).collect();
+            let per_axis: Vec<Vec<i16>> = (0..f.axis_count as usize).map(|a| axis_locations(&regions, a)).collect();
+            let mut locs: Vec<Vec<i16>> = vec![];
+            if f.axis_count == 1 {
+                locs = per_axis[0].iter().map(|x| vec![*x]).collect();
+            } else {
+                for x in &per_axis[0] {
+                    for y in &per_axis[1] {
+                        locs.push(vec![*x, *y]);
+                    }
+                }
+            }
+            check_font(run, f, &locs, &mut l);
+            l
+        })
+        .collect();
+    for l in locals {
+        l.merge(run, "c");
+    }
+    run.sample(font_json(&fonts[5], &[0x2000], "freetype"));
+}
+
+// ---------------------------------------------------------------------------
+
+fn body(run: &Run, replay: Option<&Value>) {
+    run.rule("(a) a case is (contour coordinates, deltas, tolerance) given to iup_delta_optimize; non-trivial = some but not all deltas marked optional; (b) a case is one list of glyph variation inputs compiled to gvar; observation = read-back regions + explicit deltas + packing; non-trivial = a non-zero delta present; (c) a case is (font, location, path style); observation = drawn points; non-trivial = at least one active region");
+    run.assume("oracle: the OpenType text for inferred deltas and tuple scalars, implemented in exact i128 rationals");
+    run.assume("optional deltas of structured (b2)/(c) inputs are declared consistently (value = rounded inference from the required ones, tolerance 1.0); (b1) uses the optimiser's own flags and its tolerance");
+    run.assume("(c) FreeType-style drawing rounds half up after 16.16 accumulation: the drawn integer may be either neighbour when the exact value lies within Σ_active(|delta|max·axes+3)·2^-16 of a half; HarfBuzz-style drawing (no rounding step, 16.16 scalars, f32 sums) is compared within twice that bound + 0.01 + 1e-5·|value|, and may or may not be relative to the varied phantom point 1");
+    run.assume("hmtx.lsb = xMin so that phantom point 1 is at the origin; phantom points belong to no contour and infer zero; the drawn outline is relative to the (varied, rounded) phantom point 1, as in FreeType");
+    if let Some(case) = replay {
+        let mut l = Local::new();
+        match case["kind"].as_str() {
+            Some("iup") => {
+                check_iup(run, &iup_from_json(case), &mut l);
+            }
+            Some("gvar") => {
+                let gs: Vec<GlyphSpec> = case["glyphs"].as_array().unwrap().iter().map(glyph_from_json).collect();
+                let axes = case["axis_count"].as_u64().unwrap() as u16;
+                let c = || case.clone();
+                check_gvar(run, case["family"].as_str().unwrap_or("b"), &gs, axes, &mut l, &c);
+            }
+            Some("offsets") => {
+                let gs = offsets_replay_glyphs(case["last_glyph_points"].as_u64().unwrap() as usize);
+                let c = || case.clone();
+                check_gvar(run, "b3", &gs, 1, &mut l, &c);
+            }
+            Some("draw") => {
+                let f = FontSpec {
+                    axis_count: case["axis_count"].as_u64().unwrap() as u16,
+                    advance: case["advance"].as_u64().unwrap() as u16,
+                    glyph: glyph_from_json(&case["glyph"]),
+                };
+                let loc: Vec<i16> = case["location"].as_array().unwrap().iter().map(|x| x.as_i64().unwrap() as i16).collect();
+                check_font(run, &f, &[loc], &mut l);
+            }
+            _ => run.machinery_error("unknown replay kind"),
+        }
+        return;
+    }
+    // conformance gate of the reference inference: the worked example of the specification's rules
+    {
+        // contour of 4 points on a line: deltas at the ends, two unreferenced points between / outside
+        let coords = with_phantoms(&[(0, 0), (10, 0), (20, 0), (40, 5)]);
+        let ex = vec![Some((10, 0)), None, Some((30, 4)), None, None, None, None, None];
+        let inf = infer(&coords, &[3], &ex);
+        // point 1: x between 0 and 20 -> 10 + 10*(20/20) = 20 ; y: coords equal (0,0), deltas differ -> 0
+        // point 3: x = 40 >= max(20, 0) -> delta of the larger-coordinate point = 30 ; y = 5 > 0 = both -> equal coords, deltas differ -> 0
+        if inf[1] != (R::int(20), R::int(0)) || inf[3] != (R::int(30), R::int(0)) || inf[5] != (R::int(0), R::int(0)) {
+            run.machinery_error(&format!("inference conformance gate failed: {:?} {:?}", inf[1], inf[3]));
+            return;
+        }
+        if !within((R::new(1, 2), R::int(0)), (0, 0), 1) || within((R::new(1, 2), R::new(1, 100)), (0, 0), 1) {
+            run.machinery_error("tolerance comparison gate failed");
+            return;
+        }
+    }
+    optimiser_families(run);
+    pipeline_family(run);
+    structured_family(run);
+    offsets_family(run);
+    application_family(run);
+}
